@@ -9,6 +9,7 @@ import (
 	"log/slog"
 	"net/http"
 	"net/http/httptest"
+	"net/url"
 	"regexp"
 	"sort"
 	"strings"
@@ -273,6 +274,8 @@ func vfC20IDClass(sent string, present bool) string {
 }
 
 type vfC20Checker struct {
+	preflight bool // the response being checked answers an OPTIONS request
+	relay     string // non-empty: the response relays an upstream (IdP) answer carrying extra headers; appended to signatures
 	x       *venum.X
 	e       *vfC20Env
 	minted  map[string]bool
@@ -287,8 +290,8 @@ func (c *vfC20Checker) check(label string, seq int, rec *httptest.ResponseRecord
 	hdr := rec.Header()
 	code := rec.Code
 	cls := fmt.Sprintf("%s:%d", label, code)
-	idc := vfC20IDClass(sentID, idPresent)
-	stage := fmt.Sprintf("status-%d", code)
+	idc := vfC20IDClass(sentID, idPresent) + c.relay
+	stage := fmt.Sprintf("status-%d", code) + c.relay
 	if seq <= e.hookFails {
 		stage += "-before-serve-start"
 	}
@@ -336,7 +339,10 @@ func (c *vfC20Checker) check(label string, seq int, rec *httptest.ResponseRecord
 			}
 		}
 		exposeVals, has := hdr[http.CanonicalHeaderKey("Access-Control-Expose-Headers")]
-		if len(need) > 0 && !has {
+		// Access-Control-Expose-Headers has no effect on a preflight answer (a
+		// script never sees a preflight's headers), so its absence there is not
+		// demanded; when present it is checked like anywhere else.
+		if len(need) > 0 && !has && !c.preflight {
 			x.Failf("C20:cors:no-expose-list:"+stage, cls+": CORS is enabled and the response carries %v but no Access-Control-Expose-Headers", need)
 		}
 		if has {
@@ -349,7 +355,7 @@ func (c *vfC20Checker) check(label string, seq int, rec *httptest.ResponseRecord
 			need = append(need, requestIDHeader)
 			for _, k := range need {
 				if !exposed[strings.ToLower(k)] && !exposed["*"] {
-					x.Failf("C20:cors:not-exposed:"+strings.ToLower(k), "%s: response header %s is not listed in Access-Control-Expose-Headers %q", cls, k, exposeVals)
+					x.Failf("C20:cors:not-exposed:"+strings.ToLower(k)+c.relay, "%s: response header %s is not listed in Access-Control-Expose-Headers %q", cls, k, exposeVals)
 				}
 			}
 		}
@@ -382,6 +388,7 @@ func vfC20Run(x *venum.X, on []bool, feats []vfC20Feature, route vfC20Route, met
 			if p != nil {
 				x.Failf("C20:panic:"+label, "%s %s: %v", m, path, p)
 			}
+			c.preflight = m == "OPTIONS"
 			c.check(label, e.requests, rec, sentID, idPresent)
 			return rec
 		}
@@ -417,6 +424,59 @@ func vfC20Run(x *venum.X, on []bool, feats []vfC20Feature, route vfC20Route, met
 		do(method+":"+route.name)(method, route.path(e), body, hdr...)
 	}
 	x.Outcome("%s", strings.Join(c.summary, " ; "))
+}
+
+// ---------------------------------------------------------------------------
+// A scripted identity provider on loopback (one per process; its behaviour for
+// the current execution is vfC20IdpState).
+
+type vfC20IdpBehaviour struct {
+	discoveryOK bool
+	status      int
+	headers     int // index into vfC20IdpHeaderSets
+}
+
+var vfC20IdpState vfC20IdpBehaviour
+
+// Response headers an IdP front end may add to a token response. Real ones stamp
+// their own correlation ids, cache directives, challenges and rate-limit hints;
+// the last sets use names this server also uses.
+var vfC20IdpHeaderSets = []struct {
+	name string
+	kv   []string
+}{
+	{"content-type-only", nil},
+	{"own-correlation-id", []string{"X-Request-Id", "idp-edge-REQ-0001", "Cache-Control", "no-store", "Pragma", "no-cache"}},
+	{"two-correlation-ids", []string{"X-Request-Id", "idp-a", "X-Request-Id", "idp-b"}},
+	{"challenge-and-retry", []string{"WWW-Authenticate", `Basic realm="idp"`, "Retry-After", "30", "X-Idp-Trace", "t1"}},
+	{"capability-names", []string{"VGI-Supported-Encodings", "br", "VGI-Externalization-Enabled", "maybe", "VGI-Upstream-Only", "1"}},
+}
+
+func vfC20StartIdP() *httptest.Server {
+	mux := http.NewServeMux()
+	srv := httptest.NewServer(mux)
+	mux.HandleFunc("/.well-known/openid-configuration", func(w http.ResponseWriter, r *http.Request) {
+		if !vfC20IdpState.discoveryOK {
+			http.NotFound(w, r)
+			return
+		}
+		w.Header().Set("Content-Type", "application/json")
+		fmt.Fprintf(w, `{"issuer":%q,"authorization_endpoint":%q,"token_endpoint":%q}`, srv.URL, srv.URL+"/authorize", srv.URL+"/token")
+	})
+	mux.HandleFunc("/token", func(w http.ResponseWriter, r *http.Request) {
+		w.Header().Set("Content-Type", "application/json")
+		kv := vfC20IdpHeaderSets[vfC20IdpState.headers].kv
+		for i := 0; i+1 < len(kv); i += 2 {
+			w.Header().Add(kv[i], kv[i+1])
+		}
+		w.WriteHeader(vfC20IdpState.status)
+		if vfC20IdpState.status == 200 {
+			_, _ = w.Write([]byte(`{"access_token":"a","token_type":"Bearer","expires_in":60}`))
+		} else {
+			_, _ = w.Write([]byte(`{"error":"invalid_grant"}`))
+		}
+	})
+	return srv
 }
 
 func TestVerif_C20(t *testing.T) {
@@ -508,6 +568,143 @@ func TestVerif_C20(t *testing.T) {
 		x.Note("config %v; request %s %s; id %s", cfg, method, route.name, id.name)
 		vfC20Run(x, on, feats, route, method, id.val, id.present, 2)
 	})
+	// ---- OAuth PKCE routes with an upstream IdP ------------------------------------
+	// The browser-login feature adds routes of its own ({prefix}/_oauth/token,
+	// /_oauth/callback, /_oauth/logout, wrapped HTML pages) and an environment: an
+	// identity provider this server talks to and whose answer (status AND response
+	// headers) it relays. The IdP's behaviour is an environment answer the explorer
+	// enumerates, including headers whose names collide with this server's own.
+	idp := vfC20StartIdP()
+	defer idp.Close()
+	type pkceRoute struct {
+		name, method string
+		path         func(prefix string) string
+		ctype, body  string
+		hdr          []string
+		upstream     string // "": never leaves the process; "discovery": OIDC discovery only; "token": discovery + token endpoint
+	}
+	form := func(kv ...string) string {
+		v := url.Values{}
+		for i := 0; i+1 < len(kv); i += 2 {
+			v.Set(kv[i], kv[i+1])
+		}
+		return v.Encode()
+	}
+	fenc := "application/x-www-form-urlencoded"
+	tok := func(p string) string { return p + "/_oauth/token" }
+	pkceRoutes := []pkceRoute{
+		{name: "token-authorization-code", method: "POST", path: tok, ctype: fenc, upstream: "token",
+			body: form("grant_type", "authorization_code", "code", "c", "code_verifier", "v", "redirect_uri", "http://localhost:8000/_oauth/callback")},
+		{name: "token-refresh", method: "POST", path: tok, ctype: fenc + "; charset=utf-8", upstream: "token",
+			body: form("grant_type", "refresh_token", "refresh_token", "r")},
+		{name: "token-bad-grant", method: "POST", path: tok, ctype: fenc, body: form("grant_type", "client_credentials")},
+		{name: "token-wrong-content-type", method: "POST", path: tok, ctype: "application/json", body: "{}"},
+		{name: "token-client-mismatch", method: "POST", path: tok, ctype: fenc, body: form("grant_type", "refresh_token", "client_id", "other")},
+		{name: "token-preflight", method: "OPTIONS", path: tok, hdr: []string{"Access-Control-Request-Method", "POST"}},
+		{name: "token-get", method: "GET", path: tok},
+		{name: "callback-no-params", method: "GET", path: func(p string) string { return p + "/_oauth/callback" }},
+		{name: "callback-bogus-state", method: "GET", path: func(p string) string { return p + "/_oauth/callback?code=c&state=bogus" }, upstream: "discovery"},
+		{name: "callback-idp-error", method: "GET", path: func(p string) string { return p + "/_oauth/callback?error=access_denied" }},
+		{name: "logout", method: "GET", path: func(p string) string { return p + "/_oauth/logout" }},
+		{name: "landing-browser", method: "GET", path: func(p string) string {
+			if p == "" {
+				return "/"
+			}
+			return p
+		}, hdr: []string{"Accept", "text/html"}, upstream: "discovery"},
+		{name: "landing-api-client", method: "GET", path: func(p string) string {
+			if p == "" {
+				return "/"
+			}
+			return p
+		}, hdr: []string{"Accept", "application/json"}},
+		{name: "describe-browser", method: "GET", path: func(p string) string { return p + "/describe" }, hdr: []string{"Accept", "text/html"}, upstream: "discovery"},
+		{name: "unary", method: "POST", path: func(p string) string { return p + "/m" }, ctype: arrowContentType, body: string(vfXReq("m", 1))},
+	}
+	corsVals := venum.QT([]string{"", "*"}, []string{"", "*", "http://localhost:5173"})
+	auths := venum.QT([]string{"reject"}, []string{"reject", "accept"})
+	statuses := venum.QT([]int{200, 400, 429}, []int{200, 400, 401, 429, 500})
+	pkceIDs := []struct {
+		val     string
+		present bool
+	}{{"", false}, {"  caller-trace-42 ", true}, {strings.Repeat("x", 129), true}}
+	venum.Explore(t, venum.Cfg{Name: "pkce-routes", Shardable: true}, func(x *venum.X) {
+		route := pkceRoutes[x.Choose(len(pkceRoutes), "route")]
+		prefix := []string{"", "/vgi"}[x.Choose(2, "prefix")]
+		cors := corsVals[x.Choose(len(corsVals), "cors")]
+		secret := []string{"my-client-secret", ""}[x.Choose(venum.QT(1, 2), "client-secret")]
+		auth := auths[x.Choose(len(auths), "auth")]
+		hookFails := x.Choose(2, "serve-start-hook-fails")
+		id := pkceIDs[x.Choose(len(pkceIDs), "request-id")]
+		vfC20IdpState = vfC20IdpBehaviour{discoveryOK: true, status: 200}
+		if route.upstream != "" {
+			vfC20IdpState.discoveryOK = !x.Bool("idp-discovery-fails")
+		}
+		if route.upstream == "token" && vfC20IdpState.discoveryOK {
+			vfC20IdpState.status = statuses[x.Choose(len(statuses), "idp-status")]
+			vfC20IdpState.headers = x.Choose(len(vfC20IdpHeaderSets), "idp-response-headers")
+		}
+		on := make([]bool, len(feats))
+		e := vfC20Build(on, feats)
+		defer e.close()
+		e.hookFails = hookFails
+		if prefix != "" {
+			e.prefix = prefix
+			e.h.SetPrefix(prefix)
+		}
+		if cors != "" {
+			e.cors = true
+			e.h.SetCorsOrigins(cors)
+		}
+		e.h.SetAuthenticate(func(r *http.Request) (*AuthContext, error) {
+			if auth == "accept" {
+				return &AuthContext{Domain: "bearer", Authenticated: true, Principal: "alice"}, nil
+			}
+			return nil, &RpcError{Type: "ValueError", Message: "unauthenticated"}
+		})
+		if err := e.h.SetOAuthResourceMetadata(&OAuthResourceMetadata{Resource: "http://localhost:8000" + prefix,
+			AuthorizationServers: []string{idp.URL}, ClientID: "my-client-id", ClientSecret: secret}); err != nil {
+			venum.EngineError("C20 pkce metadata: %v", err)
+			return
+		}
+		if err := e.h.SetOAuthPkce(OAuthPkceConfig{}); err != nil {
+			venum.EngineError("C20 pkce: %v", err)
+			return
+		}
+		x.Note("pkce route %s prefix=%q cors=%q auth=%s hookFails=%d idp=%+v (headers: %v)", route.name, prefix, cors, auth, hookFails, vfC20IdpState, vfC20IdpHeaderSets[vfC20IdpState.headers].name)
+		c := &vfC20Checker{x: x, e: e, minted: map[string]bool{}}
+		for i := 0; i < 2; i++ {
+			hdr := []string{"Origin", "http://localhost:5173"}
+			if route.ctype != "" {
+				hdr = append(hdr, "Content-Type", route.ctype)
+			}
+			hdr = append(hdr, route.hdr...)
+			if id.present {
+				hdr = append(hdr, requestIDHeader, id.val)
+			}
+			var body []byte
+			if route.body != "" {
+				body = []byte(route.body)
+			}
+			e.requests++
+			rec, p := vfHTTP(e.h, route.method, route.path(prefix), body, hdr...)
+			label := "pkce:" + route.name
+			if vfC20IdpState.headers != 0 && route.upstream == "token" {
+				label += ":idp-sends-" + vfC20IdpHeaderSets[vfC20IdpState.headers].name
+			}
+			if p != nil {
+				x.Failf("C20:panic:"+label, "%v", p)
+			}
+			c.preflight = route.method == "OPTIONS"
+			c.relay = ""
+			if vfC20IdpState.headers != 0 && route.upstream == "token" && vfC20IdpState.discoveryOK {
+				c.relay = ":relayed-idp-response"
+			}
+			c.check(label, e.requests, rec, id.val, id.present)
+		}
+		x.Outcome("%s", strings.Join(c.summary, " ; "))
+	})
+
 	var obs []string
 	for k := range vfC20Observed {
 		obs = append(obs, k)
